@@ -2654,12 +2654,24 @@ class Parameters:
         # would need to handle the params() cache as well
         # (which is tricky but important for startup speed).
         cls = self_.cls
+        missing = object()
+        previous = cls.__dict__.get(param_name, missing)
         type.__setattr__(cls, param_name, param_obj)
-        ParameterizedMetaclass._initialize_parameter(cls, param_name, param_obj)
-        # delete cached params() of the class and of its subclasses,
-        # whose caches include the Parameters they inherit
-        for subcls in descendents(cls):
-            subcls._param__private.params = {}
+        try:
+            ParameterizedMetaclass._initialize_parameter(cls, param_name, param_obj)
+        except Exception:
+            # a Parameter that is refused (its merged default violates the
+            # merged constraints) is not left behind on the class
+            if previous is missing:
+                type.__delattr__(cls, param_name)
+            else:
+                type.__setattr__(cls, param_name, previous)
+            raise
+        finally:
+            # delete cached params() of the class and of its subclasses,
+            # whose caches include the Parameters they inherit
+            for subcls in descendents(cls):
+                subcls._param__private.params = {}
 
     # PARAM3_DEPRECATION
     @_deprecated(extra_msg="Use instead `.param.add_parameter`", warning_cat=_ParamFutureWarning)
